@@ -1,4 +1,5 @@
 import SupervisorModel.Lemmas.Reread
+import SupervisorModel.Model.UpdateLoop
 /-
   C15 — reread reports exactly the difference, update converges to the file.
   Property theorems over Model/Reread.lean; the compared attribute lists and class facts (`Sv.Gen.Reread.*`)
@@ -494,5 +495,83 @@ example : gconfigNe (exFcgi "tcp://h:1" none none) (exFcgi "tcp://h:2" none none
 example : gconfigNe (exFcgi "tcp://h:1" none none) { exG "f" "/bin/f" with } = true := by decide +kernel
 example : gconfigNe { exG "f" "/bin/f" with } (exFcgi "tcp://h:1" none none) = true := by decide +kernel
 example : sameGroupOptions (exPool ["A", "B"] 10 "h") (exPool ["A", "B"] 10 "h") := (ne_characterised _ _).mp (by decide +kernel)
+
+
+/-! ## a group removed (or replaced) by a request of the running pass is not transitioned
+
+  runforever takes the list of groups at the top of a pass, dispatches the requests that arrived (removeProcessGroup /
+  addProcessGroup of `supervisorctl update`), then calls transition() on the groups of that list.  A removed group's
+  member that is EXITED with a restart pending would be forked there -- a child of a group that is no longer in the
+  process table.  The guard in front of transition() and ProcessGroupBase.__eq__ are the generated
+  `loopTransitionGuard`, `processGroupEqAttrs`.  (Model/UpdateLoop.lean) -/
+section loop
+open Sv.UpdateLoop
+
+/-- **removed_group_not_transitioned.**  For every list taken at the top of a pass and every table left by the
+    dispatch phase: a group object whose transition() runs is (the same object as) a group of the table.  So nothing
+    is transitioned, hence nothing forked, on behalf of a group object that a request of this pass removed --
+    whatever its name and priority and whatever else is in the table. -/
+theorem removed_group_not_transitioned (snapshot after : List Group) (g : Group)
+    (hg : g ∈ transitioned snapshot after) : ∃ t ∈ after, t.oid = g.oid := by
+  simp only [transitioned, transitionedWith, loopTransitionGuard, loopIteratesSnapshot, guardPasses, isIn,
+    List.mem_filter, List.any_eq_true, beq_iff_eq, if_true] at hg
+  exact hg.2
+
+/-- the same, read the other way round: an object that is not in the table after the dispatch phase is skipped -/
+theorem not_in_table_not_transitioned (snapshot after : List Group) (g : Group)
+    (hout : ∀ t ∈ after, t.oid ≠ g.oid) : g ∉ transitioned snapshot after := by
+  intro hg
+  obtain ⟨t, ht, he⟩ := removed_group_not_transitioned snapshot after g hg
+  exact hout t ht he
+
+/-- **nothing_forked_for_removed_group.**  One whole pass, any table, any requests: every group for which a child is
+    forked in the transition phase is an object of the table as the requests left it. -/
+theorem nothing_forked_for_removed_group (tbl : List Group) (reqs : List Req) (g : Group)
+    (hg : g ∈ (pass tbl reqs).forkedFor) : ∃ t ∈ (pass tbl reqs).table, t.oid = g.oid := by
+  simp only [pass, List.mem_filter] at hg
+  exact removed_group_not_transitioned tbl (dispatch tbl reqs) g hg.1
+
+theorem guardPasses_of_mem (k : GuardKind) (g : Group) (tbl : List Group) (h : g ∈ tbl) : guardPasses k g tbl = true := by
+  cases k
+  · simp only [guardPasses, isIn, List.any_eq_true, beq_iff_eq]; exact ⟨g, h, rfl⟩
+  · simp only [guardPasses, pyIn, List.any_eq_true, Bool.or_eq_true, beq_iff_eq]; exact ⟨g, h, Or.inl rfl⟩
+  · rfl
+
+/-- **active_group_still_transitioned.**  The guard does not starve anybody: a group of the list that is still in the
+    table is transitioned (whichever of the known guards is coded). -/
+theorem active_group_still_transitioned (snapshot after : List Group) (g : Group)
+    (hs : g ∈ snapshot) (ha : g ∈ after) : g ∈ transitioned snapshot after := by
+  simp only [transitioned, transitionedWith, loopIteratesSnapshot, List.mem_filter, if_true]
+  exact ⟨hs, guardPasses_of_mem _ g after ha⟩
+
+def exJob : Group := { oid := 1, name := "job", priority := 999, restartPending := true }
+def exOther : Group := { oid := 2, name := "other", priority := 999, restartPending := false }
+def exJob' : Group := { oid := 3, name := "job", priority := 999, restartPending := true }
+
+/-- the hypotheses are satisfiable: `update` removes group job (a member is EXITED, restart pending) while group other,
+    of the same priority, stays: only other is transitioned, nothing is forked -/
+example : (pass [exJob, exOther] [.remove "job"]).table = [exOther]
+    ∧ (pass [exJob, exOther] [.remove "job"]).transitioned = [exOther]
+    ∧ (pass [exJob, exOther] [.remove "job"]).forkedFor = [] := by decide +kernel
+/-- a changed group (removed and added again in one pass): the old object is skipped, the new one is not in the list yet -/
+example : (pass [exJob, exOther] [.remove "job", .add exJob']).table = [exOther, exJob']
+    ∧ (pass [exJob, exOther] [.remove "job", .add exJob']).forkedFor = [] := by decide +kernel
+example : exOther ∈ transitioned [exJob, exOther] (dispatch [exJob, exOther] [.remove "job"]) := by decide +kernel
+
+/-- **equality_guard_transitions_removed_group.**  Why the guard must compare identities: decided with `in` (that is,
+    by ProcessGroupBase.__eq__, which compares `processGroupEqAttrs` -- the priority), the removed group job IS
+    transitioned as soon as another group of its priority is active, and its pending restart is forked. -/
+theorem equality_guard_transitions_removed_group :
+    exJob ∉ dispatch [exJob, exOther] [.remove "job"] ∧
+    (∀ t ∈ dispatch [exJob, exOther] [.remove "job"], t.oid ≠ exJob.oid) ∧
+    exJob ∈ transitionedWith .membershipEq true [exJob, exOther] (dispatch [exJob, exOther] [.remove "job"]) := by
+  decide +kernel
+
+/-- ... and no test at all does the same for every removed group -/
+theorem no_guard_transitions_removed_group :
+    exJob ∈ transitionedWith .none true [exJob, exOther] (dispatch [exJob, exOther] [.remove "job"]) := by
+  decide +kernel
+
+end loop
 
 end Sv.Props.C15
